@@ -174,6 +174,36 @@ def Framer.decode (f : Framer) (wire : Bytes) : Except Err (Head × Bytes) :=
     | .error e => .error e
     | .ok b => .ok (h, b)
 
+/-! ### frames at the size limit, seen through LENGTHS only
+
+`finish` and `readFrame` look at the bytes of a body only through the compressor; everything else is
+arithmetic on lengths. `finishLen` / `readLen` are that arithmetic (proved equal to `finish` /
+`readFrame` for all inputs in Proofs/C18.lean: `C18_finish_by_length`, `C18_read_by_length`), so that
+the model driver can answer for 256 MiB bodies without holding them (op `big`). -/
+
+/-- length of the buffer after `finish`; `enc` = what Encode answered for the body, as a length -/
+def finishLen (hs bufLen : Nat) (flag : Bool) (enc : Option (Except Unit Nat)) : Except Err Nat :=
+  if bufLen > maxFrameSize then .error .tooBig
+  else if flag then
+    match enc with
+    | none => .error .panic
+    | some (.error _) => .error .codec
+    | some (.ok zl) => .ok (hs + zl)
+  else .ok bufLen
+
+/-- length of the body `readFrame` leaves in the framer; `dec` = what Decode answered, as a length -/
+def readLen (declared : Int) (avail : Nat) (flag : Bool) (dec : Option (Except Unit Nat)) : Except Err Nat :=
+  if declared < 0 then .error .negLength
+  else if declared > maxFrameSize then
+    (if avail < declared.toNat then .error .shortRead else .error .tooBig)
+  else if avail < declared.toNat then .error .shortRead
+  else if flag then
+    match dec with
+    | none => .error .noCompressor
+    | some (.error _) => .error .codec
+    | some (.ok n) => .ok n
+  else .ok declared.toNat
+
 /-! ### lz4/lz4.go: Cassandra's length-prefixed block format -/
 
 /-- pierrec/lz4 `CompressBlockBound(n)`: a destination of at least this many bytes is what the
